@@ -1,6 +1,8 @@
 """C09 — LB_Keogh <= DTW <= Euclidean upper bound, same in both engines."""
 import math
 
+import numpy as np
+
 from .. import dtwcases as dc
 from .. import impl
 from ..core import Result
@@ -92,6 +94,30 @@ def run(ctx):
             got["distance(only_ub) python ndim"] = call(lambda: dtw_ndim.distance(s1, s2, only_ub=True, **kw))
             got["distance(only_ub) C ndim"] = call(lambda: dtw_ndim.distance_fast(s1, s2, only_ub=True, **kw))
             got["distance(use_c, only_ub) ndim"] = call(lambda: dtw_ndim.distance(s1, s2, only_ub=True, use_c=True, **kw))
+        if nd > 1:
+            # multivariate Euclidean inner distance: sum over the points of the vector norms (floats; the harness'
+            # own evaluation of the documented definition is the reference)
+            a_ = np.array(case["s1"], dtype=float).reshape((-1, nd))
+            b_ = np.array(case["s2"], dtype=float).reshape((-1, nd))
+            nmin = min(len(a_), len(b_))
+            ref = 0.0
+            for t_ in range(max(len(a_), len(b_))):
+                pa = a_[min(t_, len(a_) - 1)] if t_ >= nmin and len(a_) < len(b_) else a_[min(t_, len(a_) - 1)]
+                pb = b_[min(t_, len(b_) - 1)]
+                ref += math.sqrt(float(np.sum((pa - pb) ** 2)))
+            routes = {"ed.distance(ndim, euclidean)": lambda: ed.distance(s1, s2, inner_dist="euclidean", use_ndim=True),
+                      "dtw_ndim.ub_euclidean(euclidean)": lambda: dtw_ndim.ub_euclidean(s1, s2, inner_dist="euclidean"),
+                      "distance(only_ub, euclidean) python ndim": lambda: dtw_ndim.distance(s1, s2, only_ub=True, inner_dist="euclidean"),
+                      "distance(only_ub, euclidean) C ndim": lambda: dtw_ndim.distance_fast(s1, s2, only_ub=True, inner_dist="euclidean")}
+            if ed_cc is not None:
+                routes["ed_cc.distance_ndim(euclidean)"] = lambda: ed_cc.distance_ndim(s1, s2, 1)
+            for name, fn in routes.items():
+                v = call(fn)
+                if not agree(v, impl.canon(ref), ulps=32):
+                    res.violations.append({"clause": "multivariate Euclidean bound with the 'euclidean' inner distance: "
+                                                     "engines agree / only_ub returns it", "route": name, "case": case,
+                                           "got": v, "expected": ref})
+            res.hit("ndim_euclidean_inner_bound")
         for name, v in got.items():
             if not agree(v, exp_ed):
                 res.violations.append({"clause": "Euclidean bound: engines agree / only_ub returns it", "route": name,
